@@ -1,5 +1,6 @@
 From Coq Require Import Extraction ExtrOcamlBasic.
-From PV Require Import Base.Bytes Base.Outcome Base.Varint Base.DrvBase Gen.GenTxConsts Model.TxWire Model.TxCheck.
+From PV Require Import Base.Bytes Base.Outcome Base.Varint Base.DrvBase Gen.GenTxConsts Model.TxWire Model.TxCheck Model.TxObject.
 Extraction "../ml/c20.ml" drv_base
   check check_coin coin_limits check_tx_inout_count check_txs_out check_txs_in check_size_limit
-  tx_is_coinbase txin_is_coinbase bad_solution_count dup_by_identity stream_tx.
+  tx_is_coinbase txin_is_coinbase bad_solution_count dup_by_identity stream_tx
+  run observe apply_mut state_after.
